@@ -221,3 +221,68 @@ impl AccessControlBuiltin {
     }
   }
 }
+
+// ---------------------------------------------------------------------------
+// Verification accessors (add-only, compiled only with --cfg rustdds_verif).
+// They enter the access control code *below* the S/MIME signature check, with
+// exactly the steps validate_local_permissions performs after verify_signature.
+#[cfg(rustdds_verif)]
+impl AccessControlBuiltin {
+  /// Parses UNSIGNED permissions / governance XML with the real parsers, selects
+  /// the domain rule for `domain_id` and registers both under a new handle.
+  /// Returns (handle, a currently valid grant for `subject` exists).
+  pub(crate) fn verif_install_unsigned(
+    &mut self,
+    subject: &str,
+    permissions_xml: &str,
+    governance_xml: &str,
+    domain_id: u16,
+  ) -> Result<(PermissionsHandle, bool), String> {
+    let permissions =
+      DomainParticipantPermissions::from_xml(permissions_xml).map_err(|e| format!("{e:?}"))?;
+    let governance = domain_governance_document::DomainGovernanceDocument::from_xml(governance_xml)
+      .map_err(|e| format!("{e:?}"))?;
+    let domain_rule = governance
+      .find_rule(domain_id)
+      .cloned()
+      .ok_or_else(|| "no domain rule".to_string())?;
+    let subject_name = DistinguishedName::parse(subject).map_err(|e| format!("{e:?}"))?;
+    let has_grant = permissions.find_grant(&subject_name, &Utc::now()).is_some();
+    let handle = self.generate_permissions_handle();
+    self.domain_rules.insert(handle, domain_rule);
+    self
+      .domain_participant_permissions
+      .insert(handle, (subject_name, permissions));
+    Ok((handle, has_grant))
+  }
+
+  /// check_entity with an explicit partition list (the public check_* methods
+  /// always pass an empty one). kind: 0 = datawriter, 1 = datareader, 2 = topic
+  pub(crate) fn verif_check_entity(
+    &self,
+    permissions_handle: PermissionsHandle,
+    domain_id: u16,
+    topic_name: &str,
+    partitions: &[&str],
+    kind: u8,
+  ) -> SecurityResult<bool> {
+    let entity = match kind {
+      0 => Entity::Datawriter,
+      1 => Entity::Datareader,
+      _ => Entity::Topic,
+    };
+    self.check_entity(
+      permissions_handle,
+      domain_id,
+      topic_name,
+      partitions,
+      &[],
+      &entity,
+    )
+  }
+
+  /// Does the stored permissions document hold a currently valid grant?
+  pub(crate) fn verif_has_grant(&self, permissions_handle: PermissionsHandle) -> bool {
+    self.get_grant(&permissions_handle).is_ok()
+  }
+}
